@@ -28,6 +28,13 @@ def cw : Char → Nat := charWidthT Gen.cellWidths
 
 abbrev Seg := Segment Nat
 
+/-- variant bitmask: 1 zeroWidthChild, 2 ruleRightRepeat, 4 rstripCountsChars, 8 columnsZeroCount -/
+def decVariant (s : String) : Variant :=
+  let n := decNat s
+  { zeroWidthChild := n % 2 == 1, ruleRightRepeat := n / 2 % 2 == 1, rstripCountsChars := n / 4 % 2 == 1,
+    columnsZeroCount := n / 8 % 2 == 1 }
+
+
 /-- a title is in the modelled domain when, line feeds replaced by blanks (as the code does), all its characters are simple -/
 def titleOk (t : List Char) : Bool := (t.map (fun c => if c == '\n' then ' ' else c)).all simpleChar
 
@@ -271,7 +278,7 @@ def answerQuery (env : Env) (l1 l2 : Array Ch) (q : String) : String :=
     match parseExpr (ex.splitOn ";") with
     | some (e, []) =>
       let run (k : Nat) : String :=
-        let c : Ctx := { env := env, v := { zeroWidthChild := decNat v % 2 == 1, ruleRightRepeat := decNat v / 2 % 2 == 1 }, leaves := (if k == 1 then l1 else l2), poison := k }
+        let c : Ctx := { env := env, v := decVariant v, leaves := (if k == 1 then l1 else l2), poison := k }
         if kind == "R" then encRes (renderTop c e (decInt w))
         else match measureTop c e (decInt w) with
           | some m => s!"m:{m.minimum},{m.maximum}"
@@ -296,9 +303,10 @@ def handlers : List (String × (List String → String)) := [
       | .ok p => s!"{p.top},{p.right},{p.bottom},{p.left}"
       | .error e => "err:" ++ errName e
     | _ => "bad-args"),
-  -- frames_columns <padding n:a,b..> <width|-> <equal> <column_first> <right_to_left> <measured maxima, comma separated> <max_width>
+  -- frames_columns <variant bitmask> <padding n:a,b..> <width|-> <equal> <column_first> <right_to_left> <measured maxima, comma separated> <max_width>
   ("frames_columns", fun a => match a with
-    | [pad, wd, eq, cf, rtl, ms, mw] =>
+    | [vb, pad, wd, eq, cf, rtl, ms, mw] =>
+      let v : Variant := decVariant vb
       let dims := match pad.splitOn ":" with
         | [n, body] => if decNat n == 0 then [] else (body.splitOn ",").map decNat
         | _ => []
@@ -306,7 +314,7 @@ def handlers : List (String × (List String → String)) := [
       let o : ColumnsOpts := { padding := dims, width := decOptInt wd, equal := decBool eq, columnFirst := decBool cf,
                                rightToLeft := decBool rtl }
       if (o.width.getD 0) < 0 || decInt mw < 1 then "unmodelled" else
-      match columnsLayout o measured (decInt mw) with
+      match columnsLayout v o measured (decInt mw) with
       | .error e => "err:" ++ errName e
       | .ok none => "none"
       | .ok (some l) =>
